@@ -297,6 +297,9 @@ func scanString(src []byte, pos int) (end int, open bool, lerr *LexError) {
 			if r2 == '\r' && p < n && src[p] == '\n' {
 				p++
 			}
+			if IsLineBreak(r2) {
+				open = true // line continuation: not defined by the statements
+			}
 			if r2 == 'x' || r2 == 'u' {
 				want := 2
 				if r2 == 'u' {
